@@ -123,6 +123,31 @@ def monitor(tasks, text, text2):
     return None
 
 
+FRESH = '''
+import json, sys
+sys.path.insert(0, %r)
+import values_h as V
+from labtech.diagram import build_task_diagram
+print(json.dumps([build_task_diagram([V.build(s) for s in specs]) for specs in json.load(open(sys.argv[1]))]))
+'''
+
+
+def fresh_diagrams(inputs, hashseed):
+    """The same diagrams rendered by a fresh interpreter with another hash seed."""
+    import os
+    import subprocess
+    from common import subdir
+    here = os.path.dirname(os.path.abspath(__file__))
+    path = os.path.join(subdir('diagram'), f'specs_{hashseed}.json')
+    with open(path, 'w') as f:
+        json.dump(inputs, f)
+    env = dict(os.environ, PYTHONHASHSEED=str(hashseed), PYTHONPATH=os.environ.get('LV_REPO', '/repo') + ':' + here)
+    out = subprocess.run(['/venv/bin/python', '-c', FRESH % here, path], env=env, stdout=subprocess.PIPE, stderr=subprocess.PIPE, text=True, timeout=600)
+    if out.returncode != 0:
+        raise RuntimeError(out.stderr[-1500:])
+    return json.loads(out.stdout.strip().splitlines()[-1])
+
+
 IMPORTS = 'Require Import LT.Model.Values LT.Model.ValuesCheck LT.Model.Diagram.\n'
 VOLUME = {'quick': 400, 'thorough': 8000}
 
@@ -147,6 +172,18 @@ def run(prop, report, tier, seed, replay=None):
             distinct.add(json.dumps(specs))
         terms.append(emit(tasks, st))
         kept.append(specs)
+    if replay is None or replay['input'].get('level') == 'fresh':
+        # the same input gives the same text in every interpreter (whatever the hash seed)
+        sample = [k for k in kept if sum(1 for _ in k) >= 1][:60 if tier == 'quick' else 600]
+        here_texts = [build_task_diagram([V.build(s) for s in specs]) for specs in sample]
+        for hs in ((1, 4242) if tier == 'quick' else (1, 2, 7, 4242)):
+            there = fresh_diagrams(sample, hs)
+            diff = [i for i in range(len(sample)) if there[i] != here_texts[i]]
+            if diff:
+                report.violation('C20:nondeterministic', f'a fresh interpreter with PYTHONHASHSEED={hs} renders a different diagram for the same tasks '
+                                                         f'({len(diff)} of {len(sample)} inputs differ)', dict(tasks=sample[diff[0]], level='fresh'))
+                break
+        dist['fresh_interpreter_diagrams'] = len(sample)
     try:
         bad = coq_failing('corr_C20', IMPORTS, terms, 'check_dcase', shard=200)
     except CoqError as e:
